@@ -34,18 +34,37 @@ pub enum Action {
     Exit { probe_late: bool },
     /// every live, not-parked thread performs `Read`, in id order (tid = ALL)
     Sweep,
+    /// `n` short-lived threads, one after another, each spawned by `tid`,
+    /// each sets mode `(m + i) % 8`, reads it back and exits.  Long-lived
+    /// threads must not notice (thread ids / TLS slots / table slots of dead
+    /// threads get reused or collide only after many thread creations).
+    Churn { n: u16, m: u8 },
 }
 
 #[derive(Clone, PartialEq, Eq, Debug)]
 pub struct Step {
     pub tid: u32,
     pub action: Action,
+    /// Op/Die only, hooks build only (`--cfg fpdec_verif`): 1-based indices of
+    /// the library's scheduling points at which the thread hands the baton
+    /// back in the MIDDLE of the operation.  Ignored by the hook-free build.
+    pub yields: Vec<u16>,
+}
+
+impl Step {
+    pub fn new(tid: u32, action: Action) -> Step {
+        Step { tid, action, yields: Vec::new() }
+    }
 }
 
 #[derive(Clone, PartialEq, Eq, Debug, Default)]
 pub struct Plan {
     /// L3 reference: one fresh OS thread per event instead of one per run
     pub ref_per_event: bool,
+    /// L3 reference evaluated in a SEPARATE PROCESS (`sim refeval`): no
+    /// process-wide state (caches, memo tables, counters) is shared between
+    /// the simulated execution and its reference
+    pub ref_process: bool,
     /// arm the TLS-destructor probe on the root thread at its start
     pub root_probe_early: bool,
     pub root_api_builder: bool,
@@ -71,6 +90,15 @@ fn tname(t: u32) -> String {
 }
 
 impl Step {
+    fn yields_text(&self) -> String {
+        if self.yields.is_empty() {
+            String::new()
+        } else {
+            let v: Vec<String> = self.yields.iter().map(|y| y.to_string()).collect();
+            format!(" @y={}", v.join(","))
+        }
+    }
+
     pub fn to_text(&self) -> String {
         let t = tname(self.tid);
         match &self.action {
@@ -86,20 +114,28 @@ impl Step {
             ),
             Action::Set(m) => format!("{} set {}", t, MODE_NAMES[*m as usize]),
             Action::Read => format!("{} read", t),
-            Action::Op(op) => format!("{} op {}", t, op.to_text()),
+            Action::Op(op) => format!("{} op {}{}", t, op.to_text(), self.yields_text()),
             Action::Resume => format!("{} resume", t),
-            Action::Die(op) => format!("{} die {}", t, op.to_text()),
+            Action::Die(op) => format!("{} die {}{}", t, op.to_text(), self.yields_text()),
             Action::Exit { probe_late } => format!(
                 "{} exit probe={}",
                 t,
                 if *probe_late { "late" } else { "none" }
             ),
             Action::Sweep => "* sweep".to_string(),
+            Action::Churn { n, m } => format!("{} churn n={} m={}", t, n, MODE_NAMES[*m as usize]),
         }
     }
 
     pub fn parse(line: &str) -> Result<Step, String> {
-        let toks: Vec<&str> = line.split_whitespace().collect();
+        let mut toks: Vec<&str> = line.split_whitespace().collect();
+        let mut yields: Vec<u16> = Vec::new();
+        if let Some(pos) = toks.iter().position(|t| t.starts_with("@y=")) {
+            for x in toks[pos][3..].split(',') {
+                yields.push(x.parse::<u16>().map_err(|e| format!("{}: {}", line, e))?);
+            }
+            toks.remove(pos);
+        }
         if toks.len() < 2 {
             return Err(format!("bad step: {}", line));
         }
@@ -143,12 +179,20 @@ impl Step {
             "die" => Action::Die(Op::parse(&toks[2..])?),
             "exit" => Action::Exit { probe_late: kv("probe") == Some("late") },
             "sweep" => Action::Sweep,
+            "churn" => Action::Churn {
+                n: kv("n")
+                    .and_then(|v| v.parse::<u16>().ok())
+                    .ok_or_else(|| format!("churn needs n=: {}", line))?,
+                m: kv("m")
+                    .and_then(mode_from_name)
+                    .ok_or_else(|| format!("churn needs m=<mode>: {}", line))?,
+            },
             other => return Err(format!("unknown action {}: {}", other, line)),
         };
         if (tid == ALL) != (action == Action::Sweep) {
             return Err(format!("'*' is for sweep only: {}", line));
         }
-        Ok(Step { tid, action })
+        Ok(Step { tid, action, yields })
     }
 }
 
@@ -165,7 +209,13 @@ impl Plan {
         }
         s.push_str(&format!(
             "opt ref={} rootprobe={} rootapi={}{}\n",
-            if self.ref_per_event { "per-event" } else { "shared" },
+            if self.ref_process {
+                "process"
+            } else if self.ref_per_event {
+                "per-event"
+            } else {
+                "shared"
+            },
             if self.root_probe_early { "early" } else { "none" },
             if self.root_api_builder { "builder" } else { "std" },
             if self.root_is_main { " rootmain=yes" } else { "" },
@@ -234,7 +284,11 @@ impl Session {
                 for kv in rest.split_whitespace() {
                     match kv {
                         "ref=per-event" => cur.ref_per_event = true,
-                        "ref=shared" => cur.ref_per_event = false,
+                        "ref=process" => cur.ref_process = true,
+                        "ref=shared" => {
+                            cur.ref_per_event = false;
+                            cur.ref_process = false;
+                        }
                         "rootprobe=early" => cur.root_probe_early = true,
                         "rootprobe=none" => cur.root_probe_early = false,
                         "rootapi=builder" => cur.root_api_builder = true,
